@@ -481,6 +481,7 @@ _BINOPS = {
     ast.BitXor: operator.xor, ast.LShift: operator.lshift, ast.RShift: operator.rshift,
     ast.MatMult: operator.matmul,
 }
+_IBINOPS = {ast.Add: operator.iadd, ast.Mult: operator.imul}
 _CMPOPS = {
     ast.Eq: operator.eq, ast.NotEq: operator.ne, ast.Lt: operator.lt, ast.LtE: operator.le,
     ast.Gt: operator.gt, ast.GtE: operator.ge,
@@ -768,6 +769,9 @@ class Interp(object):
         return self.call_value(self.getattr_value(obj, name), args, kwargs)
 
     def instantiate(self, cls, args, kwargs):
+        hook = self.models.get(("instantiate_cls", cls.qualname))
+        if hook is not None:
+            return hook(self, cls, args, kwargs)
         for c in cls.mro:
             for b in c.bases:
                 if not isinstance(b, ClassVal) and b is not object:
@@ -1446,6 +1450,12 @@ class Interp(object):
             if res is not NotImplemented:
                 return res
         f = _BINOPS[opt]
+        if inplace and isinstance(l, list):
+            # list += iterable extends in place (keeps aliasing), as in CPython
+            st = sym.get_state()
+            if st is not None and st.frame_on and id(l) not in st.allocated:
+                st.writes.append((l, "+="))
+            f = _IBINOPS.get(opt, f)
         try:
             return f(l, r)
         except _NATIVE_EXC as e:
@@ -1592,7 +1602,13 @@ class Interp(object):
         if t is ast.BinOp:
             l = self.eval(node.left, env, func)
             r = self.eval(node.right, env, func)
-            return self.binop(type(node.op), l, r)
+            try:
+                return self.binop(type(node.op), l, r)
+            except ProgExc as e:
+                if e.origin == "binop":
+                    e.origin = "binop@%s:%d (%s, %s)" % (func.qualname if func else "?", node.lineno,
+                                                         type(l).__name__, type(r).__name__)
+                raise
         if t is ast.UnaryOp:
             v = self.eval(node.operand, env, func)
             if isinstance(node.op, ast.Not):
